@@ -68,11 +68,21 @@ def do_call(run: Any, n: ast.Call) -> Any:
 def call_name(run: Any, name: str, n: ast.Call) -> Any:
     ex, st = run.ex, run.st
     fr = run.frames[-1]
+    if run.spec_mode and name in ('old', 'old0', 'final'):
+        # spec functions win over a parameter of the same name (a function
+        # under contract may well call its argument `old`)
+        r = spec_call(run, name, n)
+        if r is not NotImplemented:
+            return r
     if name in fr.locs:
         fn = run.unalias(fr.locs[name])
         if isinstance(fn, PyFunc):
             args, kwargs = args_of(run, n)
             return call_pyfunc(run, fn, args, kwargs, n)
+        if isinstance(fn, V) and isinstance(fn.ty, TRef):
+            # a callable object held in a local / parameter
+            args, kwargs = args_of(run, n)
+            return opaque_or_method(run, fn, '__call__', args, kwargs, n)
         raise Unsupported('call of local %s' % name)
     if run.spec_mode:
         r = spec_call(run, name, n)
@@ -386,6 +396,12 @@ def construct(run: Any, cls: str, n: ast.Call) -> Any:
             'listed in the contract module)' % cls,
         )
         return obj
+    if getattr(ci, 'opaque', False) and ci.file is None:
+        # an object of an opaque class: fresh abstract state, construction
+        # recorded in the effect log
+        items = ([obj] + args + [None, None])[:3]
+        ex.log_effect(st, '%s.__init__' % cls, *items)
+        return obj
     fm = run.p.find_method(cls, '__init__')
     if fm is None:
         # @dataclass: parameters are the annotated class attributes, in
@@ -583,9 +599,21 @@ def opaque_or_method(
         return V(eff_ret_bool(run)(st.eff_len - 1), TBool)
     if rty is TNone:
         return ex.as_v(st, None)
-    r = ex.fresh('ret_' + m, rty)
+    # the value the environment returned at this position of the log
+    r = V(eff_ret_any(run)(st.eff_len - 1), TAny)
+    if rty is not TAny:
+        r = ex.view(st, r, rty)
     ex.known(st, r)
     return r
+
+
+def eff_ret_any(run: Any) -> Any:
+    ex = run.ex
+    if not hasattr(ex, '_eff_ret_any'):
+        ex._eff_ret_any = z3.Function(
+            'eff_ret_any', z3.IntSort(), run.S.sort(TAny),
+        )
+    return ex._eff_ret_any
 
 
 def eff_ret_bool(run: Any) -> Any:
@@ -812,7 +840,10 @@ def container_method(
 def bind_params(
     run: Any, node: Any, args: list[Any], kwargs: dict[str, Any],
     closure: dict[str, Any] | None = None,
+    only: set[str] | None = None,
 ) -> dict[str, Any]:
+    """only: (call by contract) parameters the contract speaks about; the
+    defaults of the others are not evaluated."""
     a = node.args
     if a.vararg or a.kwarg:
         raise Unsupported('*args/**kwargs in definition of %s' % getattr(
@@ -831,6 +862,8 @@ def bind_params(
             continue
         if pn in kwargs:
             locs[pn] = kwargs[pn]
+        elif only is not None and pn not in only:
+            continue
         elif i >= dstart:
             locs[pn] = run.unalias(run.eval(defaults[i - dstart]))
         else:
@@ -838,6 +871,8 @@ def bind_params(
     for p, d in zip(a.kwonlyargs, a.kw_defaults):
         if p.arg in kwargs:
             locs[p.arg] = kwargs[p.arg]
+        elif only is not None and p.arg not in only:
+            continue
         elif d is not None:
             locs[p.arg] = run.unalias(run.eval(d))
         else:
@@ -905,7 +940,8 @@ def apply_contract(
 ) -> Any:
     """assert requires; havoc modifies; assume ensures."""
     ex, st = run.ex, run.st
-    locs = bind_params(run, node, args, kwargs)
+    locs = bind_params(
+        run, node, args, kwargs, only=set(c.params) | {'self'})
     for pn, ts in c.params.items():
         if pn in locs and pn != 'self':
             locs[pn] = ex.coerce(st, locs[pn], run.p.tenv.parse(ts))
@@ -973,6 +1009,15 @@ def assume_posts(
     run.spec_mode += 1
     try:
         for ptxt in posts:
+            if ptxt.startswith('B:'):
+                # a bounded-only clause may be plain Python outside the
+                # subset: not assuming it is sound
+                try:
+                    cnd = run.spec(ptxt)
+                except Unsupported:
+                    continue
+                run.st.assume(cnd)
+                continue
             run.st.assume(run.spec(ptxt))
     finally:
         run.spec_mode -= 1
@@ -1023,6 +1068,14 @@ def spec_call(run: Any, name: str, n: ast.Call) -> Any:
         return V(z3.Implies(run.truth(n.args[0]), run.truth(n.args[1])), TBool)
     if name == 'iff':
         return V(run.truth(n.args[0]) == run.truth(n.args[1]), TBool)
+    if name == 'final':
+        # the value a (mutable, passed by reference) parameter or local has
+        # when the function returns
+        a = n.args[0]
+        fl = getattr(run, 'final_locs', None)
+        if not (isinstance(a, ast.Name) and fl is not None and a.id in fl):
+            raise Unsupported('final() of a non-variable')
+        return fl[a.id]
     if name == 'old0':
         # value at the entry of the function under verification (inside a
         # loop invariant old() means "at loop entry")
@@ -1123,6 +1176,10 @@ def spec_call(run: Any, name: str, n: ast.Call) -> Any:
     if name == 'eff_ret':
         # boolean result of the opaque call logged as effect i (a function
         # of the position only: the value the environment returned there)
+        if len(n.args) > 1:
+            ty = run.p.tenv.parse(ast.literal_eval(n.args[1]))
+            r = V(eff_ret_any(run)(run.evalv(n.args[0]).t), TAny)
+            return r if ty is TAny else ex.view(st, r, ty)
         return V(eff_ret_bool(run)(run.evalv(n.args[0]).t), TBool)
     if name in ('eff_b', 'eff_c'):
         i = run.evalv(n.args[0]).t
